@@ -231,7 +231,15 @@ func init() {
 		c08LateGroup = mode == 3
 		// 1: PassAfterNonOption is set; 2: the parser has a string option whose separate argument is spelled like a command name
 		// 3: HelpFlag is set and --help is among the tokens: the chain named before the request stays the active one
-		c08Variant = c.Deviate(4)
+		// 4: the same parser has already parsed the full path to its last command and is re-used as it is (no option of these
+		//    trees is required, so nothing of that parse may matter; a selection that parse left below the chain named now is not looked at)
+		// 5: a CommandHandler is installed (it runs instead of Execute after a successful parse and changes nothing else)
+		c08Variant = c.Deviate(6)
+		withHandler := c08Variant == 5
+		reused := c08Variant == 4
+		if reused && mode == 3 {
+			c.Skip()
+		}
 		// thorough: sequences of 4 tokens go with the plain trees only (no declaration deviation), sequences of <= 3 with <= 2 deviations
 		deep := c.Thorough && c.Bool()
 		td, key, ok := build(c, mode == 2)
@@ -274,7 +282,7 @@ func init() {
 			}
 		}
 		c.Describe(func() interface{} {
-			return map[string]interface{}{"tree": describeTree(td.d.Top), "api_path": api, "argv": argv}
+			return map[string]interface{}{"tree": describeTree(td.d.Top), "api_path": api, "argv": argv, "parser_used_before_and_left_as_it_is": reused, "command_handler_installed": withHandler}
 		})
 		cfg := &ref.Config{D: td.d}
 		res := ref.Run(cfg, argv)
@@ -312,12 +320,33 @@ func init() {
 		if mode == 1 && n == 0 && c08Variant == 0 {
 			c08FailedAdd(c, td)
 		}
-		rr := runParser(b, cfg, argv, runOpts{})
+		if reused {
+			c.Hit("parser-re-used")
+			var path []string
+			for x := td.cmds[len(td.cmds)-1]; x != nil && x.Parent != nil; x = x.Parent {
+				path = append([]string{x.Name}, path...)
+			}
+			if wr := runParser(b, cfg, path, runOpts{}); wr.Panic != nil {
+				c.Fail("panic|"+wr.PanicSite, fmt.Sprint("earlier parse ", path, ": ", wr.Panic))
+				return
+			}
+			rezero(b)
+		}
+		rr := runParser(b, cfg, argv, runOpts{CommandHandler: withHandler})
 		if rr.Panic != nil {
 			c.Fail("panic|"+rr.PanicSite, fmt.Sprint(rr.Panic))
 			return
 		}
+		if withHandler {
+			c.Hit("command-handler-installed")
+			if res.Fault != nil && !res.Grey && len(rr.CmdCalls) != 0 {
+				c.Fail("handler-ran-on-a-faulty-line|"+res.Fault.Type.String(), rr.CmdCalls)
+			}
+		}
 		got := b.ActiveChain()
+		if reused && len(got) > len(res.Chain) {
+			got = got[:len(res.Chain)] // what the earlier parse selected below the chain named now
+		}
 		c.Outcome(key, errType(rr.Err), strings.Join(got, "/"))
 		if res.Fault == nil {
 			c.Hit("model-clean")
@@ -352,6 +381,9 @@ func init() {
 			}
 		default:
 			c.Hit("other-fault")
+			if rr.Err == nil && !res.Grey {
+				c.Fail("faulty-vector-accepted|"+res.Fault.Type.String(), map[string]interface{}{"rest": rr.Rest})
+			}
 			if fe, ok := rr.Err.(*flags.Error); ok && (fe.Type == flags.ErrCommandRequired || fe.Type == flags.ErrUnknownCommand) {
 				c.Fail("command-diagnosis|unexpected-"+fe.Type.String(), fe.Message)
 			}
@@ -368,12 +400,12 @@ func init() {
 			}
 			return 1
 		},
-		Rule: "every command tree with <= 4 commands and depth <= 3 (all 32 parent arrays) plus the chain of depth 4, one counter flag per node; deviations from the plain tree (bounded: 1 quick / 2 thorough): PassAfterNonOption set, a string option of the parser given a command name as its separate argument, HelpFlag set with --help among the tokens (the chain named so far stays active), a command whose AddCommand failed (must not exist), aliases on <= 2 nodes, " +
+		Rule: "every command tree with <= 4 commands and depth <= 3 (all 32 parent arrays) plus the chain of depth 4, one counter flag per node; deviations from the plain tree (bounded: 1 quick / 2 thorough): PassAfterNonOption set, a string option of the parser given a command name as its separate argument, HelpFlag set with --help among the tokens (the chain named so far stays active), a command whose AddCommand failed (must not exist), a parser that has already parsed the path to its last command and is re-used as it is, a CommandHandler installed (the diagnoses stay the same and it does not run on a faulty line), aliases on <= 2 nodes, " +
 			"subcommands-optional on any subset of inner nodes incl. the parser, one node's flag letter clashing with its parent's or grandparent's, a deeper command reusing a top-level command's name, any subset of commands hidden; " +
 			"x {struct tags, API, API with executable commands, API where the parser's flag sits in a group that is added after the commands and after a parse that selected each of them} x every sequence of <= 3 tokens (thorough: 4 tokens on the trees without deviation, all four build modes) over all names, aliases, every node's flag, one long flag and an unknown word, plus beyond that bound [unit, full path to any node, unit]; oracle = CLM active chain, scoping (which counter was incremented), " +
 			"remaining arguments and ErrCommandRequired / ErrUnknownCommand",
 		Assumptions:  []string{"deviation-bounded over declaration features, exhaustive over trees and token sequences"},
-		RequiredHits: []string{"model-clean", "chain-depth>=2", "command-fault", "other-fault"},
+		RequiredHits: []string{"model-clean", "chain-depth>=2", "command-fault", "other-fault", "parser-re-used", "command-handler-installed"},
 		Bound:        [2]string{"token sequences <= 3, <= 1 declaration deviation", "token sequences <= 3 with <= 2 declaration deviations; 4 tokens on trees without deviation"},
 		BudgetS:      [2]int{170, 1500},
 	})
